@@ -44,7 +44,7 @@ _CONTROL = (_Return, _Break, _Continue, Abort, BoundHit, HarnessError)
 
 
 class Env:
-    __slots__ = ('vars', 'parent', 'globals', 'nonlocals', 'globs')
+    __slots__ = ('vars', 'parent', 'globals', 'nonlocals', 'globs', 'locals')
 
     def __init__(self, parent, globs):
         self.vars = {}
@@ -52,12 +52,16 @@ class Env:
         self.globs = globs          # module dict
         self.nonlocals = None
         self.globals = None
+        self.locals = None          # names that are local to this function scope (assigned somewhere in its body)
 
     def lookup(self, name):
         e = self
         while e is not None:
             if name in e.vars:
                 return e.vars[name]
+            if e.locals is not None and name in e.locals:
+                # Python decides at compile time that the name is local: no fall-through to outer scopes
+                raise UnboundLocalError("cannot access local variable '%s' where it is not associated with a value" % name)
             e = e.parent
         if name in self.globs:
             return self.globs[name]
@@ -144,6 +148,39 @@ class IFunc:
 
     def __repr__(self):
         return '<IFunc %s>' % self.__name__
+
+
+_LOCALS_CACHE = {}
+
+
+def _local_names(funcdef):
+    """names bound by plain assignment-like statements directly in the function (not in nested scopes); used for
+    UnboundLocalError only, so a conservative subset is enough: Name targets with Store context, for/with/except
+    targets, augmented assignments"""
+    key = id(funcdef)
+    if key in _LOCALS_CACHE:
+        return _LOCALS_CACHE[key]
+    out = set()
+
+    def visit(n):
+        for ch in ast.iter_child_nodes(n):
+            if isinstance(ch, (ast.FunctionDef, ast.AsyncFunctionDef, ast.Lambda, ast.ClassDef,
+                               ast.ListComp, ast.SetComp, ast.DictComp, ast.GeneratorExp)):
+                if isinstance(ch, (ast.FunctionDef, ast.AsyncFunctionDef, ast.ClassDef)):
+                    out.add(ch.name)
+                continue
+            if isinstance(ch, ast.Name) and isinstance(ch.ctx, ast.Store):
+                out.add(ch.id)
+            elif isinstance(ch, ast.ExceptHandler) and ch.name:
+                out.add(ch.name)
+            elif isinstance(ch, (ast.Import, ast.ImportFrom)):
+                for a in ch.names:
+                    out.add((a.asname or a.name).split('.')[0])
+            visit(ch)
+    for st in funcdef.body:
+        visit(ast.Module(body=[st], type_ignores=[]))
+    _LOCALS_CACHE[key] = frozenset(out)
+    return _LOCALS_CACHE[key]
 
 
 def _has_yield(node):
@@ -528,6 +565,7 @@ class Interp:
                 env.nonlocals = (env.nonlocals or set()) | set(s.names)
             elif isinstance(s, ast.Global):
                 env.globals = (env.globals or set()) | set(s.names)
+        env.locals = _local_names(node) - (env.nonlocals or set()) - (env.globals or set())
         if _has_yield(node):
             def body(gen):
                 env.vars['$gen'] = gen
